@@ -166,26 +166,6 @@ Fixpoint lc (fn : lcfn) (n : node) (c : cur) (depth : nat) (path : list string) 
   end.
 
 (* ---------- the method: header + body ---------- *)
-(* how the argument reaches the method (Api forms) *)
-Inductive arg :=
-| AVal (v : val)            (* T *)
-| APtr (o : option val)     (* *T, possibly a typed nil *)
-| APtrPtr (o : option (option val))   (* **T: None = nil **T; Some None = pointer to a nil *T *)
-| ANil                      (* untyped nil interface *)
-| AForeign.                 (* a value of an unrelated type *)
-
-(* x after the type switch of the header: None = the header returned by itself *)
-Definition header_x (a : arg) : option cur + pkind :=
-  match a with
-  | AVal v => inl (Some (CVal v))
-  | APtr (Some v) => inl (Some (CVal v))
-  | APtr None => inl (Some CNil)
-  | APtrPtr (Some (Some v)) => inl (Some (CVal v))
-  | APtrPtr (Some None) => inl (Some CNil)
-  | APtrPtr None => inr PNilDeref                (* x = *p with p nil *)
-  | ANil | AForeign => inl None
-  end.
-
 (* The root map node keeps ptr = true after Length was emitted when its values have no
    hasc (the emitter returns before restoring it): Capacity then starts with a nil check. *)
 Definition root_for (fn : lcfn) (n : node) : node :=
